@@ -125,6 +125,7 @@ type loopFrame struct {
 	breaks    []*State
 	continues []*State
 	label     string
+	alias     string // label of a labelled switch statement (`L: switch`), target of `break L`
 }
 
 type FnCtx struct {
@@ -184,6 +185,7 @@ type FnCtx struct {
 	reqFacts       []int
 	cutDone        bool
 	labelSuffix    string
+	switchLabel    string // label of the labelled switch about to be executed
 	axiomFacts     []int          // fact indices of the package axioms (dropped from queries that do not mention their symbols)
 	namedFacts     map[string]int // fact index of each lemma of `uses` and each package axiom (for `using` lists)
 }
